@@ -1,4 +1,5 @@
-(* C03 proofs, part 5: copy_buf keeps a byte-identical copy of what the application wrote; the refuted case *)
+(* C03 proofs, part 5: copy_buf keeps a byte-identical copy of what the application wrote; regression witness of the
+   repaired shrinking-setbuf defect *)
 From CppcmsV Require Import Base.Tac C03.Defs C03.Proofs.
 Local Open Scope N_scope.
 
@@ -33,12 +34,19 @@ Proof.
   destruct (cpy_overflow y d c None) as [[y1 d1] c1]. destruct (dev_sync d1 c1). cbn [fst] in *. now rewrite H, app_nil_r.
 Qed.
 
-(* the defect: a shrinking setbuf in fully buffered asynchronous mode destroys buffered output.
+(* regression witness of the defect repaired by /repo commit 00eb9d4: a shrinking setbuf in fully buffered asynchronous
+   mode used to destroy buffered output (the old model, faithful to the old code, put CR LF 1 0 0 0 5 on the wire).
    SCGI, no headers, default schedule: the application writes 1 2 3 4, calls setbuf(1), writes 5 *)
 Definition shrink_ops : list op := [OWrite [1;2;3;4]; OSetbuf false 1; OWrite [5]].
 Lemma shrink_witness :
   let c := new_conn Scgi true false 1 [] [] [] [] in
-  concat (k_wire (fst (run_request true (mkHeaders [] []) 1024 [] c shrink_ops))) = CRLF ++ [1;0;0;0;5].
+  concat (k_wire (fst (run_request true (mkHeaders [] []) 1024 [] c shrink_ops))) = CRLF ++ [1;2;3;4;5].
+Proof. vm_compute. reflexivity. Qed.
+(* setbuf(0) with content buffered, then put (sputc -> overflow grows the vector) and an asynchronous flush *)
+Definition shrink0_ops : list op := [OWrite [1;2;3]; OSetbuf false 0; OPut [4;5]; OAsyncFlush; OSetbuf false 0; OWrite [6]].
+Lemma shrink0_witness :
+  let c := new_conn Scgi true false 1 [] [] [2;0;1] [] in
+  concat (k_wire (fst (run_request true (mkHeaders [] []) 1024 [] c shrink0_ops))) = CRLF ++ [1;2;3;4;5;6].
 Proof. vm_compute. reflexivity. Qed.
 
 (* boolean equality used by large non-vacuity examples (keeps the normal form small) *)
